@@ -317,3 +317,8 @@ def run(chk, replay=None):
         "any_object: a CPO call on a wrapper emptied by a move (heap storage) or a failed assignment is undefined (null dereference / "
         "std::abort through invalid_obj): outside the machine's domain, never generated"]
     chk.cov["exhaustive"] = False
+    # type_erased_stream's next-op election under a racing stop request (model TypeEraseNext, theorems in Properties_C13_typeerase.v)
+    from units import stream_proto
+    import os
+    os.environ.setdefault('VERIF_C13_ONLY', 'type_erase')
+    stream_proto.run_units(chk)
